@@ -1101,7 +1101,8 @@ impl Template {
     /// `$` stands for an expression: the input must still be an expression with one in its place.
     fn new_checked(input: Expr) -> Result<Self> {
         let this = Self::new(input);
-        if parse2::<Expr>(this.apply(quote!((__value)))).is_err() {
+        // `(__value.0)` is neither a pattern nor a type, so `$` is accepted in expression position only.
+        if parse2::<Expr>(this.apply(quote!((__value.0)))).is_err() {
             bail!(
                 this.span(),
                 "`$` can be used only in place of an expression"
